@@ -31,6 +31,7 @@ FINGERPRINTS = [
     (S, ["load_config", "_load_from_explicit_path", "_load_from_default_locations", "_try_load_from_location", "_load_and_merge_config",
          "save_config", "_validate_before_save", "_write_config_file", "validate_config", "merge_configs"]),
     (P, ["parse_config_file", "_normalize_config_keys", "parse_yaml", "parse_json"]),
+    (S, ["_load_config_file", "_validate_and_return_config", "_write_and_log_config", "_write_yaml_config", "_write_json_config"]),
     ("src/cli/main.py", ["cli"]),
 ]
 
